@@ -89,6 +89,27 @@ EXPECT.append({"src": _TGS + "gt()[gi(0)].A = gv(5)\nnil", "field": "trace", "wa
 EXPECT.append({"src": _TGS + "gs()[gi(0)].A = gv(5)\nnil", "field": "trace", "want": "(s:76);(s:73);(s:69)", "finding": "store-back-reevaluates-target",
                "why": "assignment target: a store into a field of a struct value held in a list slot (the changed struct is stored back) evaluates the operands of the target exactly once"})
 
+# go calls: the operands run exactly once, in order, in the goroutine that executes the go statement - on every call path
+_GO = "c = make(chan interface, 4)\nfunc w1(a) { c <- a }\nfunc w2(a, b) { c <- b }\nfunc w3(a, b, d) { c <- d }\nfunc w4(a, b, d, e) { c <- e }\nfunc w5(a, b, d, e, f) { c <- f }\nfunc w6(a, b, d, e, f, g) { c <- g }\nfunc wv(a, b...) { c <- a }\nfunc wz() { c <- 0 }\n"
+for _call, _want, _why in (
+        ("go w1(probe(\"a\"))", "(s:61)", "one fixed parameter"),
+        ("go w2(probe(\"a\"), probe(\"b\"))", "(s:61);(s:62)", "two fixed parameters"),
+        ("go w3(probe(\"a\"), probe(\"b\"), probe(\"d\"))", "(s:61);(s:62);(s:64)", "three fixed parameters"),
+        ("go w4(probe(\"a\"), probe(\"b\"), probe(\"d\"), probe(\"e\"))", "(s:61);(s:62);(s:64);(s:65)", "four fixed parameters"),
+        ("go w5(probe(\"a\"), probe(\"b\"), probe(\"d\"), probe(\"e\"), probe(\"f\"))", "(s:61);(s:62);(s:64);(s:65);(s:66)", "five fixed parameters"),
+        ("go w6(probe(\"a\"), probe(\"b\"), probe(\"d\"), probe(\"e\"), probe(\"f\"), probe(\"g\"))", "(s:61);(s:62);(s:64);(s:65);(s:66);(s:67)", "six fixed parameters"),
+        ("go wv(probe(\"a\"), probe(\"b\"), probe(\"d\"))", "(s:61);(s:62);(s:64)", "a variadic script function"),
+        ("go wv(probe(\"a\"))", "(s:61)", "a variadic script function with an empty tail"),
+        ("go w2(probe([1, 2])...)", "([i:1,i:2])", "a spread call of a fixed-parameter function"),
+        ("go wv(probe(\"a\"), probe([1, 2])...)", "(s:61);([i:1,i:2])", "a spread call of a variadic function"),
+        ("go func(a, b) { c <- a }(probe(\"a\"), probe(\"b\"))", "(s:61);(s:62)", "an anonymous function"),
+        ("go func(a, b, d) { c <- a }(probe(probe(\"a\") + \"x\"), probe(\"b\"), [probe(\"d\")])", "(s:61);(s:6178);(s:62);(s:64)", "an anonymous function with nested operands"),
+        ("g = {\"f\": w2}; go g[probe(\"f\")](probe(\"a\"), probe(\"b\"))", "(s:66);(s:61);(s:62)", "a computed callee")):
+    EXPECT.append({"src": _GO + _call + "\n<-c\nnil", "field": "trace", "want": _want, "finding": None,
+                   "why": "go call, %s: every operand is evaluated exactly once, left to right, before the goroutine starts" % _why})
+EXPECT.append({"src": _GO + "go w1(probe(1), probe(2))\nnil", "field": "trace", "want": "", "finding": None,
+               "why": "a go call rejected for a wrong argument count evaluates no operand"})
+
 
 def run(tier, seed, replay=None):
     return interpcheck.run_interp_check(
